@@ -8,6 +8,7 @@ import json
 import os
 import sys
 import threading
+import time
 from functools import partial
 
 from harness import exec_tasks as T
@@ -66,10 +67,15 @@ def builtin(call):
 
 
 def main():
-    job = json.load(open(sys.argv[1]))
-    out = open(sys.argv[2], "w")
     from pennylane.concurrency.executors import create_executor
     import pennylane
+    t_end = time.time() + float(os.environ.get("VERIF_JOB_WAIT", "900"))
+    while not os.path.exists(sys.argv[1]):      # started early (import overlaps the TLC generators); the job arrives later
+        if time.time() > t_end:
+            sys.exit(3)
+        time.sleep(0.05)
+    job = json.load(open(sys.argv[1]))
+    out = open(sys.argv[2], "w")
     backend, d = job["backend"], job["dir"]
     out.write(json.dumps({"id": -1, "pennylane": os.path.dirname(pennylane.__file__)}) + "\n")
     cache = {}
